@@ -46,6 +46,9 @@ pub fn decode(src: &mut BytesMut) -> Result<Address> {
         }
         Socks5AddressType::Domain => {
             let len = src.get_u8();
+            if len == 0 {
+                bail!("empty domain name");
+            }
             let host_bytes = src.split_to(len as usize);
             let port = src.get_u16();
             let host = String::from_utf8(host_bytes.to_vec())?;
